@@ -1,0 +1,10 @@
+//go:build verif
+
+package babble
+
+// This file only exists under the "verif" build tag: export shim used by the
+// deterministic simulation harness (no effect on the package's behaviour).
+
+// SimInitStore runs initStore (store kind, backup of an existing database when
+// not bootstrapping, maintenance mode) and leaves the result in b.Store.
+func (b *Babble) SimInitStore() error { return b.initStore() }
